@@ -107,9 +107,6 @@ structure Cfg where
   dqWord : Bool
   /-- the lexer reads `[a]` as a delimited identifier, so `t[3]` lexes as `t` + word (printing only) -/
   lbWord : Bool
-  /-- `is_custom_operator_part('>')`: a run of three or more `>` lexes as one custom operator
-  (PostgreSQL; printing only) -/
-  gtOp : Bool
 deriving DecidableEq, Repr
 
 /-- printing parameters: `make_word`'s keyword class of an unquoted word, and the real tokens
@@ -433,21 +430,21 @@ end
 
 /-- the tokens the lexer makes of a run of `n` adjacent `>`: pairs become `ShiftRight` greedily from
 the left; where `>` is a custom-operator character (PostgreSQL) a run of three or more is ONE
-custom operator -/
-def run (c : Cfg) (n : Nat) : List Tok :=
-  if c.gtOp && 3 ≤ n then [.customOp (List.replicate n 62)]
+custom operator.  `gtOp` = `is_custom_operator_part('>')` of the dialect. -/
+def run (gtOp : Bool) (n : Nat) : List Tok :=
+  if gtOp && 3 ≤ n then [.customOp (List.replicate n 62)]
   else List.replicate (n / 2) ShrT ++ (if n % 2 = 1 then [GtT] else [])
 
 /-- the lexer on the closing angle brackets of a printed type; `n` = length of the run of `>`
 read so far -/
-def retokGo (c : Cfg) : Nat → List Tok → List Tok
-  | n, [] => run c n
-  | n, x :: r => if x = GtT then retokGo c (n + 1) r else run c n ++ x :: retokGo c 0 r
+def retokGo (gtOp : Bool) : Nat → List Tok → List Tok
+  | n, [] => run gtOp n
+  | n, x :: r => if x = GtT then retokGo gtOp (n + 1) r else run gtOp n ++ x :: retokGo gtOp 0 r
 
-def retok (c : Cfg) (ts : List Tok) : List Tok := retokGo c 0 ts
+def retok (gtOp : Bool) (ts : List Tok) : List Tok := retokGo gtOp 0 ts
 
 /-- the non-whitespace tokens the lexer produces on `to_string()` of the type -/
-def printDT (c : Cfg) (env : Env) (t : DT) : List Tok := retok c (pre c env t)
+def printDT (c : Cfg) (env : Env) (gtOp : Bool) (t : DT) : List Tok := retok gtOp (pre c env t)
 
 -- ------------------------------------------------------------------ parsing: leaves
 
